@@ -56,7 +56,7 @@ ASSUMPTIONS = [
 ]
 EXPECTED_PROBES = ["probe.step_completed", "probe.breakpoint_hit", "probe.pause_from_hook", "probe.reset_rerun",
                    "probe.step_hit_end_of_run", "probe.non_one_shot_refired", "probe.peek_or_find",
-                   "probe.reset_with_source", "probe.metric_breakpoint_on_zero"]
+                   "probe.reset_with_source", "probe.metric_breakpoint_on_zero", "probe.breakpoint_added_from_hook"]
 SHRINK_SKIP = ("n_entities", "n_kinds")
 
 
@@ -110,8 +110,11 @@ def gen(rng, tier):
             ops.append({"op": "remove_bp", "which": rng.randrange(4)})
         elif r < 0.90:
             ops.append({"op": "clear_bps"})
-        elif r < 0.95:
+        elif r < 0.93:
             ops.append({"op": rng.choice(["peek", "find", "get_state"]), "n": rng.randint(1, 5)})
+        elif r < 0.96:
+            # a breakpoint registered from inside an event hook while the run is going
+            ops.append({"op": "bp_from_hook", "after": rng.randint(1, 12), "count": rng.randint(0, 4), "one_shot": True})
         else:
             ops.append({"op": "remove_hook"})
     prog["ctl"] = ops
@@ -211,12 +214,17 @@ def run_controlled(sc, *, trace=False, tracing=False):
         stats = {"took_effect": set(), "reasons": set(), "n_effective": 0}
         seen = {"n": 0, "types": [], "times": []}
         pause_at: set[int] = set()
+        hook_bps: dict[int, list] = {}      # delivery index -> breakpoint specs to register from the hook
+        added_in_segment: dict[str, dict] = {}
+        bp_ids: list[str] = []
         active_bps: dict[str, dict] = {}  # id -> mirror
         metric_counts = [0] * sc["n_entities"]
 
         def mirror_true(m, idx):
             """Harness-side mirror of a breakpoint predicate after delivery #idx (1-based)."""
             k = m["op"]
+            if idx < m.get("from_idx", 0):
+                return False
             if k == "bp_count":
                 return idx >= m["abs"]
             if k == "bp_time":
@@ -240,6 +248,13 @@ def run_controlled(sc, *, trace=False, tracing=False):
                 snaps[e].append(pr.entities[e].seen_count)
             if seen["n"] in pause_at:
                 ctl.pause()
+            for spec in hook_bps.pop(seen["n"], []):
+                m = {"op": "bp_count", "abs": seen["n"] + spec["count"], "one_shot": True, "from_idx": seen["n"]}
+                bid = ctl.add_breakpoint(EventCountBreakpoint(count=m["abs"], one_shot=True))
+                active_bps[bid] = m
+                added_in_segment[bid] = m
+                bp_ids.append(bid)
+                stats["took_effect"].add("bp_from_hook")
 
         # entity attribute used by MetricBreakpoint
         for ent in pr.entities:
@@ -259,6 +274,8 @@ def run_controlled(sc, *, trace=False, tracing=False):
             if hook_removed:
                 return
             # any delivery strictly inside the segment that satisfied an active breakpoint must have paused
+            seg_bps.update(added_in_segment)
+            added_in_segment.clear()
             for j in range(before + 1, now_n):
                 for bid, m in list(seg_bps.items()):
                     if mirror_true(m, j):
@@ -300,7 +317,6 @@ def run_controlled(sc, *, trace=False, tracing=False):
             raise Bad("pause/initial", f"pause() before run(): processed={processed()} paused={ctl.is_paused}")
         if not ctl.is_paused and sc["initial"]:
             raise Bad("pause/initial", "pause() before run() did not pause a run that has events")
-        bp_ids: list[str] = []
         for op in ops:
             if complete():
                 break
@@ -329,6 +345,9 @@ def run_controlled(sc, *, trace=False, tracing=False):
                 _drop_one_shots(active_bps, ctl, mirror_true, processed(), before, hook_removed)
             elif k == "pause_at":
                 pause_at.add(processed() + op["index"])
+            elif k == "bp_from_hook":
+                if not hook_removed:
+                    hook_bps.setdefault(processed() + op["after"], []).append(op)
             elif k.startswith("bp_"):
                 m = dict(op)
                 if k == "bp_count":
@@ -383,6 +402,7 @@ def run_controlled(sc, *, trace=False, tracing=False):
                     ctl.remove_hook(hook_id)
                     hook_removed = True
                     pause_at.clear()
+                    hook_bps.clear()
         # run to completion whatever is still armed
         guard = 0
         while ctl.is_running:
@@ -501,6 +521,7 @@ def run(sc):
     })
     counters["probe.metric_breakpoint_on_zero"] = int(any(o["op"] == "bp_metric" and o.get("cmp") in ("le", "eq", "lt") and o["ge"] <= 1
                                                            for o in sc.get("ctl", [])))
+    counters["probe.breakpoint_added_from_hook"] = int("bp_from_hook" in te)
     for k in te:
         counters[f"ctl.{k}"] = 1
     h = hashlib.blake2b(repr((base["log"], sc.get("ctl"))).encode(), digest_size=12).hexdigest()
@@ -534,6 +555,11 @@ def _reset_check(sc):
                                                  f"the heap holds {prim}")
         sim.control.resume()
     second = list(tl)
+    for uid, step, clk, evt in pr.log:
+        if step == -1 and clk != evt:
+            return ("reset/clock-ne-event-time", f"after reset() an event stamped {evt}ns was delivered while the clock read {clk}ns")
+    if pr.problems:
+        return (f"reset/{pr.problems[0][0]}", pr.problems[0][1])
     if first != second:
         n = min(len(first), len(second))
         i = next((j for j in range(n) if first[j] != second[j]), n)
